@@ -1,3 +1,4 @@
+use crate::scheme::escape_string;
 use std::collections::HashMap;
 
 /// A convenience struct to store output port information
@@ -132,7 +133,8 @@ impl LocalSchemeManager {
         if self.files.get(&filename).is_none() {
             self.vars.push(format!(
                 "(%lf3:port:{} (open-file \"{}\" \"w\"))",
-                self.var_index, filename,
+                self.var_index,
+                escape_string(&filename),
             ));
             self.fini
                 .push(format!("(close-port %lf3:port:{})", self.var_index));
@@ -165,8 +167,9 @@ impl LocalSchemeManager {
             return *existing_id;
         }
 
+        let escaped = escape_string(pattern);
         self.vars.push(format!(
-            "(%lf3:match:{} (lambda (%lf3:str:{}) ({matcher}? \"{pattern}\" %lf3:str:{})))",
+            "(%lf3:match:{} (lambda (%lf3:str:{}) ({matcher}? \"{escaped}\" %lf3:str:{})))",
             self.var_index + 1,
             self.var_index,
             self.var_index
@@ -298,8 +301,9 @@ impl DistributedSchemeManager {
             return *existing_id;
         }
 
+        let escaped = escape_string(pattern);
         self.vars.push(format!(
-            "(%lf3:match:{} (lambda (%lf3:str:{}) ({matcher}? \"{pattern}\" %lf3:str:{})))",
+            "(%lf3:match:{} (lambda (%lf3:str:{}) ({matcher}? \"{escaped}\" %lf3:str:{})))",
             self.var_index + 1,
             self.var_index,
             self.var_index
